@@ -24,6 +24,11 @@ type dbCase struct {
 	PreIndexed []int `json:",omitempty"`
 	// Targets lists the references whose IndexSequence map is examined.
 	Targets []int `json:",omitempty"`
+	// Stale lists references that carry, when IndexSequence is called, an
+	// obitag_ref_index left by the indexing of another database (here: "distance 0
+	// -> the root", what a database holding this reference and a distant copy of it
+	// gives).  Building the index of a reference never reads such annotations.
+	Stale []int `json:",omitempty"`
 }
 
 func (c *dbCase) validate() error {
@@ -47,7 +52,7 @@ func (c *dbCase) validate() error {
 	if len(c.Query) < 4 {
 		return fmt.Errorf("harness: query shorter than a 4-mer")
 	}
-	for _, l := range [][]int{c.PreIndexed, c.Targets} {
+	for _, l := range [][]int{c.PreIndexed, c.Targets, c.Stale} {
 		for _, i := range l {
 			if i < 0 || i >= len(c.Refs) {
 				return fmt.Errorf("harness: reference index %d out of range", i)
@@ -151,13 +156,17 @@ func (m *model) expectedIndex(r int) map[int]int {
 	for i := range order {
 		order[i] = i
 	}
-	sort.SliceStable(order, func(a, b int) bool { return m.refDist(r, order[a]) < m.refDist(r, order[b]) })
+	dist := make([]int, n) // dist[j] = distance of reference j to r (looked up once per reference)
+	for j := range dist {
+		dist[j] = m.refDist(r, j)
+	}
+	sort.SliceStable(order, func(a, b int) bool { return dist[order[a]] < dist[order[b]] })
 	idx := map[int]int{}
 	cur := m.c.Node[r]
 	prev := -1
 	for i := 0; i < n; {
-		d := m.refDist(r, order[i])
-		for i < n && m.refDist(r, order[i]) == d {
+		d := dist[order[i]]
+		for i < n && dist[order[i]] == d {
 			cur = m.c.Tree.LCA(cur, m.c.Node[order[i]])
 			i++
 		}
